@@ -296,7 +296,10 @@ def igReady (cfg : Cfg) (p : Proc) (s : St) (n : Node) (g : IgSt) (work : List T
   match g.activated with
   | none => (false, s)
   | some a =>
-    let early := !upstreamLive p s n.id work g.arrived
+    -- (a gateway with at most one incoming flow joins nothing: BPMN's inclusive join waits for tokens that can still
+    -- arrive on an EMPTY incoming flow — with a single incoming flow, which holds the arriving token, there is none; so
+    -- the earliest allowed point is "at once", as the latest one)
+    let early := n.ins.length ≤ 1 || !upstreamLive p s n.id work g.arrived
     let late := lateAt s n a g.arrived work
     if cfg.inclCohort then
       let awaiting := cohort s a
